@@ -9,12 +9,14 @@ import (
 	"encoding/hex"
 	"encoding/json"
 	"fmt"
+	"go.uber.org/thriftrw/verifshim/vmap"
 	"os"
 	"os/exec"
 	"path/filepath"
 	"sort"
 	"strings"
 	"time"
+	"verif/engine/choice"
 
 	"go.uber.org/thriftrw/compile"
 	"go.uber.org/thriftrw/gen"
@@ -182,6 +184,8 @@ type caseT struct {
 	WantFail  bool     `json:"want_fail"`
 	CoreFiles []string `json:"core_files"` // relative to out, expected on success
 	Hostile   bool     `json:"hostile"`
+	// Orders: also run under every map-iteration order (<=1 deviating range execution) in gen and internal/plugin
+	Orders bool `json:"orders"`
 }
 
 const svcIDL = "struct Req { 1: optional string a }\nservice Svc { Req echo(1: Req r) }\n"
@@ -237,6 +241,31 @@ func cases(quick bool) []caseT {
 	c.Plugins = []plugSpec{ok("p1", map[string]string{"shared/x.txt": "1", "p1/own.txt": "o"}), ok("p2", map[string]string{"shared/x.txt": "2"})}
 	c.WantFail, c.Hostile = true, true
 	out = append(out, c)
+	// the same conflicts with further, harmless files around the conflicting path
+	// (names sorting before and after it): the verdict must not depend on which file
+	// of a response happens to be merged last
+	for k := 1; k <= 3; k++ {
+		extras := map[string]string{"a/a.go": "x"}
+		for _, n := range []string{"a/0.txt", "zz/z.txt", "m/m.txt"}[:k] {
+			extras[n] = "e"
+		}
+		c = base(fmt.Sprintf("plugin path equals the core-generated file, with %d other files", k))
+		c.Plugins = []plugSpec{ok("p1", extras)}
+		c.WantFail, c.Hostile, c.Sentinels, c.Orders = true, true, k%2 == 1, true
+		out = append(out, c)
+		f1 := map[string]string{"shared/x.txt": "1"}
+		f2 := map[string]string{"shared/x.txt": "2"}
+		for i, n := range []string{"0/a.txt", "zz/z.txt", "q/q.txt"}[:k] {
+			f1["p1/"+n] = "o"
+			if i%2 == 0 {
+				f2["p2/"+n] = "o"
+			}
+		}
+		c = base(fmt.Sprintf("two plugins produce the same path, with %d other files each", k))
+		c.Plugins = []plugSpec{ok("p1", f1), ok("p2", f2)}
+		c.WantFail, c.Hostile, c.Orders = true, true, true
+		out = append(out, c)
+	}
 	c = base("two plugins, disjoint paths")
 	c.Plugins = []plugSpec{ok("p1", map[string]string{"p1/x.txt": "1"}), ok("p2", map[string]string{"p2/x.txt": "2"})}
 	c.CoreFiles = append(c.CoreFiles, "p1/x.txt", "p2/x.txt")
@@ -292,6 +321,17 @@ func cases(quick bool) []caseT {
 	c = caseT{Desc: "layout included file outside the thrift root", Thrift: map[string]string{"x/y/z.thrift": "include \"../../o/v.thrift\"\nstruct Z { 1: optional v.V v }\n", "o/v.thrift": "struct V { 1: optional i32 i }\n"},
 		Root: "x/y/z.thrift", ThriftRoot: "x", WantFail: true, Hostile: true, Sentinels: true, Plugins: []plugSpec{ok("p1", map[string]string{"p1/x.txt": "1"})}}
 	out = append(out, c)
+	// an included file in a sibling directory whose name merely starts with the root's name
+	for _, sib := range []string{"x_common", "xy", "x.d", "x-old"} {
+		c = caseT{Desc: "layout included file in sibling " + sib + " of thrift root x", Thrift: map[string]string{"x/y/z.thrift": "include \"../../" + sib + "/v.thrift\"\nstruct Z { 1: optional v.V v }\n", sib + "/v.thrift": "struct V { 1: optional i32 i }\n"},
+			Root: "x/y/z.thrift", ThriftRoot: "x", WantFail: true, Hostile: true, Sentinels: true, Plugins: []plugSpec{ok("p1", map[string]string{"p1/x.txt": "1"})}}
+		out = append(out, c)
+	}
+	// the thrift root given with a trailing separator / dot segments names the same directory
+	for _, tr := range []string{"x/", "x/.", "x/y/.."} {
+		out = append(out, caseT{Desc: "layout thrift root spelled " + tr, Thrift: map[string]string{"x/y/z.thrift": svcIDL}, Root: "x/y/z.thrift", ThriftRoot: tr, CoreFiles: []string{"y/z/z.go", "p1/x.txt"},
+			Plugins: []plugSpec{ok("p1", map[string]string{"p1/x.txt": "1"})}, Sentinels: true})
+	}
 	return out
 }
 
@@ -372,6 +412,31 @@ func (r *runner) judge(c caseT, level string, before, after snap, failed bool, e
 		}
 	}
 	w.Outcome(level + ":succeeded-confined")
+}
+
+// inProcessOrders repeats the in-process run under every map-iteration order with at
+// most one deviating range execution (gen is built with the
+// range rewrite, so the default order is the sorted one).
+func (r *runner) inProcessOrders(c caseT) {
+	ex := &choice.Explorer{Bound: 1}
+	ex.Body = func(cx *choice.Ctx) {
+		vmap.Reset()
+		vmap.Chooser = func(site string, n, nAlts int) int { return cx.Deviate(nAlts, site) }
+		defer func() { vmap.Chooser = nil }()
+		cc := c
+		var lab []string
+		r.inProcess(cc)
+		for i, pt := range cx.Trace {
+			if pt.Choice != 0 {
+				lab = append(lab, fmt.Sprintf("%s#%d=order%d", pt.Label, i, pt.Choice))
+			}
+		}
+		_ = lab
+	}
+	ex.Run()
+	r.w.R.States += ex.Stats.States
+	r.w.R.Transitions += ex.Stats.Transitions
+	r.w.Count("executions_under_map_orders", ex.Stats.Executions)
 }
 
 func (r *runner) inProcess(c caseT) {
@@ -476,7 +541,11 @@ func run(w *ev.W) {
 			w.Sample(c)
 		}
 		w.Progress("in-process " + c.Desc)
+		vmap.Reset()
 		r.inProcess(c)
+		if c.Orders {
+			r.inProcessOrders(c)
+		}
 		// process level: everything that is not one of the bulk path cases, and every 9th path case
 		if !strings.HasPrefix(c.Desc, "path ") || i%9 == 0 || strings.Contains(c.Desc, "..") && i%3 == 0 {
 			w.Progress("process " + c.Desc)
